@@ -1,8 +1,47 @@
 import Flatland.JsonUtil
+import Flatland.Markup.Json
+import Flatland.C11
 open Lean Flatland.J
 namespace Flatland.Run.C11
+open Flatland.Markup Flatland.Markup.Json Flatland.C11 Flatland.Generated.C11
 
-/-- JSON case in, JSON observation out (stub until the model of C11 is written). -/
-def run (_j : Json) : Except String Json := .error "model runner for C11 not implemented yet"
+def ofParsed (p : Option Parsed) : Json :=
+  match p with
+  | none => Json.null
+  | some p => obj [("tag", ofStr p.tag),
+      ("attrs", ofList (fun (kv : List Char × List Char) => Json.arr #[ofStr kv.1, ofStr kv.2]) p.attrs),
+      ("text", ofStr p.text)]
+
+def runTag (j : Json) : Except String Json := do
+  let T := Tables.current
+  let markup ← cfld j "markup"
+  let settings ← parsePairs parseCVal (← fld j "settings")
+  let tag0 ← cfld j "tag"
+  -- Generator.tag() lower-cases the name; the properties (gen.input …) are fixed names
+  let tag := if (← sfld j "via") == "tag" then asciiLower tag0 else tag0
+  let bind ← parseBind (← fld j "bind")
+  let kwargs ← parsePairs parseVal (← fld j "kwargs")
+  match Gen.init T markup settings with
+  | .error e => return obj [("out", Json.null), ("err", Json.str e.name), ("parsed", Json.null)]
+  | .ok g =>
+    match g.callTag T attrChain voidElements staticAttributeOrder tag bind kwargs with
+    | .error e => return obj [("out", Json.null), ("err", Json.str e.name), ("parsed", Json.null)]
+    | .ok (s, _) =>
+      -- the generator sets "parse" on data-only cases (no Markup value, no contents)
+      let parsed := if (← bfld j "parse") then ofParsed (parseTag decodeRefs voidElements s) else Json.null
+      return obj [("out", ofStr s), ("err", Json.null), ("parsed", parsed)]
+
+def runSugar (j : Json) : Except String Json := do
+  let u ← cfld j "u"
+  let x := sugar xChain u
+  let xa := sugar xaChain u
+  return obj [("x", ofStr x), ("xa", ofStr xa),
+    ("x_dec", ofStr (decodeRefs x)), ("xa_dec", ofStr (decodeRefs xa))]
+
+def run (j : Json) : Except String Json := do
+  match (← sfld j "k") with
+  | "tag" => runTag j
+  | "sugar" => runSugar j
+  | k => throw s!"unknown case kind {k}"
 
 end Flatland.Run.C11
